@@ -128,4 +128,14 @@ def nodupNat : List Nat → Bool
   | [] => true
   | a :: r => !r.contains a && nodupNat r
 
+/-- `PDFDocument.__init__` as far as this property goes: locate `startxref` backwards with read buffer
+`bufsiz`, then load the chain of sections from there (the driver's `q.open` runs exactly this). -/
+def openPhys (ph : Phys) (bufsiz : Nat) : Except Err (List (Section × Trailer)) :=
+  match findXref bufsiz ph.data with
+  | .error e => .error e
+  | .ok pos =>
+    match readXrefFrom ph (ph.secs.length + 2) pos ([], []) with
+    | .ok r => .ok r.1
+    | .error e => .error e
+
 end PdfVerif.Xref
